@@ -2,18 +2,25 @@ package layouta
 
 import (
 	"fmt"
+	"syscall"
 	"time"
 
 	"verif/h/eng"
 )
 
+func cpuNow() time.Duration {
+	var ru syscall.Rusage
+	syscall.Getrusage(syscall.RUSAGE_SELF, &ru)
+	return time.Duration(ru.Utime.Nano() + ru.Stime.Nano())
+}
+
 func init() {
 	eng.Internal["dbg-layouta-time"] = func(args []string) {
 		for i := 0; i < 4; i++ {
 			for _, e := range []string{"dagre", "elk"} {
-				t0 := time.Now()
-				_, _, err := layout(e, args[0])
-				fmt.Println(e, err, time.Since(t0))
+				t0, c0 := time.Now(), cpuNow()
+				r := c17Oracle(mkIn(e, args[0]))
+				fmt.Println(e, r.Fail == nil, "wall", time.Since(t0), "cpu", cpuNow()-c0)
 			}
 		}
 	}
